@@ -24,7 +24,9 @@ import (
 // MsgFillBids, MsgFillAsks on a real app (real bank, hold, exchange keepers and msg server), with a
 // dump of the balances of every involved account, the market account and the fee collector and of the
 // open orders and of what the hold module has on hold for every account after every op.  The
-// messages go through the request's ValidateBasic and then the msg server, as runTx does.
+// messages go through the request's ValidateBasic and then - the SAME request object, as in runTx,
+// so that anything ValidateBasic does to it is what the handler sees - the msg server.  The id lists
+// come in any order (that of the orders' creation, permuted, the newest order not last).
 // Line formats: lean/PvModel/SettleAppDriver.lean.
 
 func init() {
@@ -507,6 +509,48 @@ func (g *sappGen) repeat(ids []uint64) ([]uint64, uint64, int) {
 	return rv, victim, times
 }
 
+// reorder: a request lists its orders in whatever order the sender likes - the order of their creation
+// (ascending ids) is only one of them - and which order is the LAST of its list decides who may be
+// filled in part.  Mostly an order that allows a partial fill is kept at the end, so that the permuted
+// requests are accepted about as often as the others.
+func (g *sappGen) reorder(ids []uint64) []uint64 {
+	r := g.r
+	if len(ids) < 2 {
+		return ids
+	}
+	if r.Chance(40) {
+		g.out.Count("app:order:as-created")
+		return ids
+	}
+	rv := append([]uint64{}, ids...)
+	for i := len(rv) - 1; i > 0; i-- {
+		j := r.Intn(i + 1)
+		rv[i], rv[j] = rv[j], rv[i]
+	}
+	last := len(rv) - 1
+	if o := g.open[rv[last]]; (o == nil || !o.partial) && r.Chance(60) {
+		for i, id := range rv[:last] {
+			if o := g.open[id]; o != nil && o.partial {
+				rv[i], rv[last] = rv[last], rv[i]
+				break
+			}
+		}
+	}
+	highest := rv[0]
+	for _, id := range rv {
+		highest = max(highest, id)
+	}
+	switch {
+	case rv[last] != highest:
+		g.out.Count("app:order:last-is-not-highest-id")
+	case !sort.SliceIsSorted(rv, func(i, j int) bool { return rv[i] < rv[j] }):
+		g.out.Count("app:order:permuted-last-highest")
+	default:
+		g.out.Count("app:order:ascending")
+	}
+	return rv
+}
+
 func (g *sappGen) refresh() {
 	for id := range g.open {
 		o, err := sappApp.ExchangeKeeper.GetOrder(g.e.ctx, id)
@@ -575,6 +619,8 @@ func (g *sappGen) round() {
 		total.Add(total, g.open[prevAsks[0]].assets)
 		g.out.Count("app:reuse-ask")
 	}
+	// in any order (before the bids are sized: the last ask of the list is the one that may be partial)
+	askIDs = g.reorder(askIDs)
 	bidTotal := new(big.Int).Set(total)
 	if len(prevBids) > 0 && r.Chance(70) {
 		pb := g.open[prevBids[0]]
@@ -616,6 +662,7 @@ func (g *sappGen) round() {
 	if len(askIDs) == 0 || len(bidIDs) == 0 {
 		return
 	}
+	bidIDs = g.reorder(bidIDs)
 	// a request may name an order more than once (the stated totals and, for a market settlement,
 	// the other side's orders are what they would be if that were two orders)
 	repeat := r.Chance(12)
